@@ -58,11 +58,12 @@ ForcedObs ==
 \* the exact shape of the named deviation: unJail put k in front of a non-empty list with no last-jailed marker
 \* and the old first element still points to itself
 StaleShape ==
-    /\ Ev.a = "UnJail" /\ Ev.out.ok /\ head.len >= 1 /\ head.lj = NoKey /\ head.first # Ev.in.k
-    /\ ~el[Ev.in.k].in
-    /\ Ev.st.head.first = Ev.in.k /\ Ev.st.head.lj = Ev.in.k /\ Ev.st.head.len = head.len + 1
-    /\ Ev.st.el[Ev.in.k] = [in |-> TRUE, p |-> Ev.in.k, n |-> head.first]
-    /\ Ev.st.el[head.first] = el[head.first]
+    /\ Ev.a \in {"UnJail", "VUnJail"} /\ Ev.out.ok /\ head.len >= 1 /\ head.lj = NoKey
+    /\ LET of == head.first
+           nf == Ev.st.head.first
+       IN  /\ nf # of /\ nf \in Keys /\ ~el[nf].in            \* a key that was not queued is the new first element
+           /\ Ev.st.el[nf].in /\ Ev.st.el[nf].n = of          \* ... directly in front of the old first element
+           /\ Ev.st.el[of].in /\ Ev.st.el[of].p = of          \* ... whose PreviousKey still points to itself
 Obs ==
     /\ l <= Len(TLog) /\ Ev.a # "New" /\ l' = l + 1
     /\ reg' = Ev.st.reg /\ head' = Ev.st.head /\ el' = Ev.st.el /\ cfg' = Ev.st.cfg
